@@ -446,15 +446,45 @@ func (r *c13Run) run() {
 		case x < 38: // hostile duplicates: same bridger / external address for another oracle
 			j := spec.N + rng.IntN(2)
 			dup := *r.os[j].o
-			if rng.IntN(2) == 0 {
-				dup.Bridger = o.Bridger
-			} else {
-				dup.ExtAddr = o.ExtAddr
+			// the victim: preferably an oracle that is registered but offline (slashed, or removed and waiting for
+			// its stake): its identity is taken all the same
+			victim, vi, vfound := o, i, found
+			for k, q := range r.os[:spec.N] {
+				if rec2, ok := b.K.GetOracle(c.Ctx, q.o.Oracle.Acc()); ok && !rec2.Online && rng.IntN(2) == 0 {
+					victim, vi, vfound = q.o, k, true
+					r.res.Count("duplicate_identity_of_an_offline_oracle_attempts", 1)
+					break
+				}
 			}
-			// make j approved first so that only the uniqueness rule can refuse
-			res := b.Bond(&dup, threshold)
-			if res.OK() && found {
-				r.res.Violate("C13/duplicate-identity-accepted", "a second oracle bonded with oracle %d's bridger or external address", i)
+			if rng.IntN(2) == 0 {
+				dup.Bridger = victim.Bridger
+			} else {
+				dup.ExtAddr = victim.ExtAddr
+			}
+			// on a branch: governance approves j first, so that only the uniqueness rule can refuse
+			br := c.Branch()
+			var approved []string
+			for k, q := range r.os {
+				if (k < spec.N && !q.removed) || k == j {
+					approved = append(approved, q.o.Oracle.Bech32())
+				}
+			}
+			if ar := c.MsgOn(br, &crosschaintypes.MsgUpdateChainOracles{ChainName: spec.Chain, Oracles: approved, Authority: chain.GovAuthority()}); !ar.OK() {
+				break
+			}
+			res := c.MsgOn(br, &crosschaintypes.MsgBondedOracle{OracleAddress: dup.Oracle.Bech32(), BridgerAddress: dup.Bridger.Bech32(), ExternalAddress: dup.ExtAddr,
+				ValidatorAddress: dup.Val.String(), DelegateAmount: sdk.NewCoin(fxtypes.DefaultDenom, threshold), ChainName: spec.Chain})
+			r.res.Count("duplicate_identity_bonds_tried", 1)
+			if res.OK() && vfound {
+				r.res.Violate("C13/duplicate-identity-accepted", "a second (approved) oracle bonded with oracle %d's bridger or external address", vi)
+			}
+			// positive control of the branch: with its own identity the approved newcomer can bond
+			if rng.IntN(4) == 0 {
+				own := r.os[j].o
+				if pr := c.MsgOn(br, &crosschaintypes.MsgBondedOracle{OracleAddress: own.Oracle.Bech32(), BridgerAddress: own.Bridger.Bech32(), ExternalAddress: own.ExtAddr,
+					ValidatorAddress: own.Val.String(), DelegateAmount: sdk.NewCoin(fxtypes.DefaultDenom, threshold), ChainName: spec.Chain}); pr.OK() {
+					r.res.Count("duplicate_identity_controls_ok", 1)
+				}
 			}
 		case x < 44: // edit bridger / redelegate / withdraw reward / governance switches the penalty off and on
 			switch rng.IntN(4) {
